@@ -7,8 +7,8 @@ import (
 	"encoding/json"
 	"fmt"
 	"os"
-	"strconv"
 	"reflect"
+	"strconv"
 	"strings"
 	"testing"
 
@@ -16,6 +16,7 @@ import (
 	"github.com/Eyevinn/mp4ff/hevc"
 	"pgregory.net/rapid"
 
+	"verif/internal/boxmut"
 	"verif/internal/harness"
 	"verif/internal/nalgen"
 )
@@ -532,7 +533,7 @@ func genStream(t *rapid.T) streamCase {
 	// one stream in 500: a NAL unit around and beyond 2^16 bytes (the length field has 32 bits); the bulk is a
 	// filler without zero bytes behind a drawn head, the stream is kept short, and every other time all start codes
 	// have 4 bytes (the in-place conversion)
-	if rapid.IntRange(0, hugeEvery-1).Draw(t, "hugeNalu") == 0 {
+	if boxmut.Uniform(t, "hugeNalu", hugeEvery) == 0 { // uniform: rapid's own integer draws hit 0 about once in twenty, whatever the range
 		if len(c.Nalus) > 3 {
 			c.Nalus, c.SC = c.Nalus[:3], c.SC[:3]
 		}
